@@ -14,13 +14,25 @@ Definition vk (name : string) : vkind :=
   | Some kv => snd kv
   | None => VUnknown 0
   end.
-(* HeaderParameter(desc, in_choices([...])): in_choices itself is identified
-   by the extractor through the JWK "use" entry *)
-Definition vchoices (l : list string) : vkind :=
-  match find (fun p => String.eqb (kp_name p) "use") jwk_parameter_registry with
-  | Some p => match kp_kind p with VChoices _ => VChoices l | _ => VUnknown 1 end
-  | None => VUnknown 1
+(* HeaderParameter(desc, in_choices([...][, is_list])): in_choices is identified
+   by the extractor through the JWK "use" (is_list=False) and "key_ops"
+   (is_list=True) entries; the is_list=None form has no table entry and is tied
+   to both of them being identified *)
+Definition kp_kind_of (n : string) : option vkind :=
+  match find (fun p => String.eqb (kp_name p) n) jwk_parameter_registry with
+  | Some p => Some (kp_kind p)
+  | None => None
   end.
+Definition use_identified : bool :=
+  match kp_kind_of "use" with Some (VChoiceStr _) => true | _ => false end.
+Definition key_ops_identified : bool :=
+  match kp_kind_of "key_ops" with Some (VChoiceList _) => true | _ => false end.
+Definition vchoices (l : list string) : vkind :=
+  if use_identified && key_ops_identified then VChoices l else VUnknown 1.
+Definition vchoice_str (l : list string) : vkind :=
+  if use_identified then VChoiceStr l else VUnknown 2.
+Definition vchoice_list (l : list string) : vkind :=
+  if key_ops_identified then VChoiceList l else VUnknown 3.
 Definition hp (n : string) (k : vkind) (r : bool) : hparam :=
   {| hp_name := n; hp_kind := k; hp_required := r |}.
 
